@@ -29,7 +29,12 @@ MANIFEST = {
             'code also for join: all (executions_once_full_fails: a join that failed early is re-opened by a late branch and its '
             'successors run twice; real-engine replay corpus/C02/early_error_join_rerun.json, known finding); in the strict class it is '
             'monitored by the sem stream, not proved. Local theorems (C02): join_verdict_order_independent, verdict_order_independent, '
-            'merge_order_independent.',
+            'merge_order_independent (version merge at a join, ARBITRARILY NESTED values, at every leaf path both contexts hold: '
+            'both merge orders give the same leaf and version unless two concurrent branches published the path), '
+            'merge_grouping_independent (associativity: how a join groups >=3 inbound contexts is irrelevant, no tie hypothesis), '
+            'published_data_order_independent (WHOLE fork/join publish histories: listing the rows of every join in another order '
+            'shows every task the same leaf whenever its publishers have a causally latest one; C05Causal, hypothesis shape-stable '
+            'republication).',
     'note': 'The theorems are about Mistral.Engine (one event = one committed transaction; data flow / expressions / policies / '
             'with-items / sub-workflows outside): published variables and output are covered by merge_order_independent (C05) and '
             'the paired runs only. Outcome = workflow state + SET of rows: the NUMBER of executions of a task that is activated '
@@ -43,7 +48,7 @@ RULE = ('stream engine (mode paired): program x oracle x two schedules (+evict, 
         'joins all/one/N with successors, guards that do not fire, 30% multi-activation), indirect-join shapes and larger '
         'single-activation DAGs with task-defaults x oracle (set of failing tasks) x random/fifo/lifo schedule x 0-2 '
         'pause/resume rounds x cache eviction on/off on the REAL engine, outcome at quiescence vs Mistral.Sem; non-trivial = '
-        'a join, a failing task or an operator command; distinct = distinct (definition, oracle, schedule seed, commands, evict); stream ctx as in C05 (the real data-flow functions on generated publish histories, every inbound context in all row orders, against Mistral.Ctx + order-independence monitor)')
+        'a join, a failing task or an operator command; distinct = distinct (definition, oracle, schedule seed, commands, evict); stream ctx as in C05 (the real data-flow functions on generated publish histories, every inbound context in all row orders, against Mistral.Ctx + order-independence monitor + the leaf-granular causal monitor on every row order; stream hist: whole histories against Mistral.Hist)')
 TRUSTED = ['harness seams replaced by recorders']
 LEAN_MODULES = ['Mistral.Props.C02', 'Mistral.Props.C02Sem']
 
@@ -81,7 +86,7 @@ def replay(ctx, rep):
         sem_stream.replay(ctx, rep)
         return
     r = rep.get('replay', rep)
-    if isinstance(r, dict) and 'history' in r:
+    if isinstance(r, dict) and ('history' in r or r.get('lookup')):
         from harness import ctx_stream
         ctx_stream.replay(ctx, r)
         return
